@@ -8,7 +8,7 @@ package output
 
 //@ func (*Registry).LoadOutputs(r, ctx, target, targetResult, progress) (err)
 //@   modifies target.OutputsLoaded, target.OutputHash, target.CacheTime
-//@   modifies heap("H$S$output.handlers.DockerRegistryOutputHandler$dockerClient"), heap("H$S$output.handlers.dockerLayerProgress$lastCurrent"), heap("H$S$proto.gen.Directory$Directories"), heap("H$S$proto.gen.Directory$Files"), heap("H$S$proto.gen.Directory$Symlinks"), heap("M$String$Int$has"), heap("M$String$Int$val"), heap("M$String$Int$len")
+//@   modifies heap("H$S$output.handlers.DockerRegistryOutputHandler$dockerClient"), heap("H$S$output.handlers.dockerLayerProgress$lastCurrent"), heap("H$S$proto.gen.Directory$Directories"), heap("H$S$proto.gen.Directory$Files"), heap("H$S$proto.gen.Directory$Symlinks"), heap("H$S$proto.gen.Tree$Children"), heap("H$S$proto.gen.Tree$Root"), heap("H$S$proto.gen.Tree$sizeCache"), heap("H$S$proto.gen.Tree$state"), heap("H$S$proto.gen.Tree$unknownFields"), heap("M$String$Int$has"), heap("M$String$Int$val"), heap("M$String$Int$len")
 //@   ensures [loaded_flag] err == nil ==> target.OutputsLoaded
 //@   ensures [output_hash_from_result] err == nil && !old(target.OutputsLoaded) ==> target.OutputHash == targetResult.OutputHash
 //@   ensures [already_loaded_untouched] old(target.OutputsLoaded) ==> target.OutputHash == old(target.OutputHash)
@@ -24,7 +24,7 @@ package output
 //@   invariant [waited_ok] forall j int :: {tasks[j]} 0 <= j && j <= rangeindex ==> taskOK(tasks[j])
 
 //@ func (*Registry).WriteOutputs(r, ctx, target, progress) (res, err)
-//@   modifies heap("H$S$output.handlers.DockerRegistryOutputHandler$dockerClient"), heap("H$S$output.handlers.dockerLayerProgress$lastCurrent"), heap("H$S$proto.gen.Directory$Directories"), heap("H$S$proto.gen.Directory$Files"), heap("H$S$proto.gen.Directory$Symlinks"), heap("M$String$Int$has"), heap("M$String$Int$val"), heap("M$String$Int$len")
+//@   modifies heap("H$S$output.handlers.DockerRegistryOutputHandler$dockerClient"), heap("H$S$output.handlers.dockerLayerProgress$lastCurrent"), heap("H$S$proto.gen.Directory$Directories"), heap("H$S$proto.gen.Directory$Files"), heap("H$S$proto.gen.Directory$Symlinks"), heap("H$S$proto.gen.Tree$Children"), heap("H$S$proto.gen.Tree$Root"), heap("H$S$proto.gen.Tree$sizeCache"), heap("H$S$proto.gen.Tree$state"), heap("H$S$proto.gen.Tree$unknownFields"), heap("M$String$Int$has"), heap("M$String$Int$val"), heap("M$String$Int$len")
 //@   allocates res
 //@   ensures [result_shape] err == nil ==> res != nil && res.ChangeHash == target.ChangeHash
 //@   ensures [nil_on_error] err != nil ==> res == nil
@@ -35,7 +35,7 @@ package output
 //@   invariant [waited_ok] forall j int :: {tasks[j]} 0 <= j && j <= rangeindex ==> taskOK(tasks[j])
 
 //@ func (*Registry).GetNoCacheOutputHash(r, ctx, target) (res, err)
-//@   modifies heap("H$S$output.handlers.DockerRegistryOutputHandler$dockerClient"), heap("H$S$output.handlers.dockerLayerProgress$lastCurrent"), heap("H$S$proto.gen.Directory$Directories"), heap("H$S$proto.gen.Directory$Files"), heap("H$S$proto.gen.Directory$Symlinks"), heap("M$String$Int$has"), heap("M$String$Int$val"), heap("M$String$Int$len")
+//@   modifies heap("H$S$output.handlers.DockerRegistryOutputHandler$dockerClient"), heap("H$S$output.handlers.dockerLayerProgress$lastCurrent"), heap("H$S$proto.gen.Directory$Directories"), heap("H$S$proto.gen.Directory$Files"), heap("H$S$proto.gen.Directory$Symlinks"), heap("H$S$proto.gen.Tree$Children"), heap("H$S$proto.gen.Tree$Root"), heap("H$S$proto.gen.Tree$sizeCache"), heap("H$S$proto.gen.Tree$state"), heap("H$S$proto.gen.Tree$unknownFields"), heap("M$String$Int$has"), heap("M$String$Int$val"), heap("M$String$Int$len")
 //@   allocates res
 //@   ensures [result_shape] err == nil ==> res != nil && res.ChangeHash == target.ChangeHash && len(res.Outputs) == 0
 //@   ensures [nil_on_error] err != nil ==> res == nil
